@@ -581,10 +581,14 @@ def coneVanishZ (lo hi hh : α) : α :=
   let tangent := coneTangent lo hi hh
   if Num.gt lo hi then -hh + lo / tangent else hh - hi / tangent
 
+/-- the `ConeZ{{0, 0, vanish_z}, tangent}` of `Cone::build` -/
+def coneSurface (lo hi hh : α) : Surface α :=
+  .coneAligned .z ⟨0, 0, coneVanishZ lo hi hh⟩ (Num.sq (coneTangent lo hi hh))
+
 /-- non-degenerate branch of `Cone::build` -/
 def emitConeProper (lo hi hh : α) : List (Sense × Surface α) :=
   [(.outside, .planeAligned .z (-hh)), (.inside, .planeAligned .z hh),
-   (.inside, .coneAligned .z ⟨0, 0, coneVanishZ lo hi hh⟩ (Num.sq (coneTangent lo hi hh)))]
+   (.inside, coneSurface lo hi hh)]
 
 /-- the degenerate test of `Cone::build`: `SoftEqual{tol.rel}(r0, r1)` -/
 def coneDegenerate (tol : Tol α) (lo hi : α) : Bool := (SoftEq.ofRel tol.rel).eq lo hi
@@ -598,10 +602,13 @@ def ellipsoidCoeffs (r : Vec3 α) : α × α × α × α :=
   let r0 := Num.sq r.x; let r1 := Num.sq r.y; let r2 := Num.sq r.z
   (r1 * r2, r0 * r2, r0 * r1, ((-r0) * r1) * r2)
 
+/-- the `SimpleQuadric{abc, {0,0,0}, g}` of `Ellipsoid::build` -/
+def ellipsoidSurface (r : Vec3 α) : Surface α :=
+  let c := ellipsoidCoeffs r
+  .simpleQuadric c.1 c.2.1 c.2.2.1 (0 : α) (0 : α) (0 : α) c.2.2.2
+
 /-- `Ellipsoid::build` -/
-def emitEllipsoid (r : Vec3 α) : List (Sense × Surface α) :=
-  let (a, b, c, g) := ellipsoidCoeffs r
-  [(.inside, .simpleQuadric a b c (0 : α) (0 : α) (0 : α) g)]
+def emitEllipsoid (r : Vec3 α) : List (Sense × Surface α) := [(.inside, ellipsoidSurface r)]
 
 /-- `x − 4·⌊x/4⌋` for x ≥ 0 by repeated subtraction (every step is exact in binary64, so this
     is `std::fmod(x, 4)` bit for bit) -/
@@ -635,16 +642,20 @@ def ppipedBase (h : Vec3 α) (sa ca st ct sp cp : α) : Vec3 α × Vec3 α × Ve
    ⟨sa * h.y, ca * h.y, (0 : α) * h.y⟩,
    ⟨(st * cp) * h.z, (st * sp) * h.z, ct * h.z⟩)
 
-/-- `Parallelepiped::build` -/
-def emitPpiped (h : Vec3 α) (sa ca st ct sp cp : α) : List (Sense × Surface α) :=
+/-- unit normals and offsets of the slanted faces of `Parallelepiped::build`:
+    (ynorm, yoffset, xnorm, xoffset) -/
+def ppipedFaces (h : Vec3 α) (sa ca st ct sp cp : α) : Vec3 α × α × Vec3 α × α :=
   let (a, b, c) := ppipedBase h sa ca st ct sp cp
   let xnorm := makeUnit (cross b c)
   let ynorm := makeUnit (cross c a)
-  let xoff := Vec3.dot a xnorm
-  let yoff := Vec3.dot b ynorm
+  (ynorm, Vec3.dot b ynorm, xnorm, Vec3.dot a xnorm)
+
+/-- `Parallelepiped::build` -/
+def emitPpiped (h : Vec3 α) (sa ca st ct sp cp : α) : List (Sense × Surface α) :=
+  let f := ppipedFaces h sa ca st ct sp cp
   [(.outside, .planeAligned .z (-h.z)), (.inside, .planeAligned .z h.z),
-   (.outside, .plane ynorm (-yoff)), (.inside, .plane ynorm yoff),
-   (.outside, .plane xnorm (-xoff)), (.inside, .plane xnorm xoff)]
+   (.outside, .plane f.1 (-f.2.1)), (.inside, .plane f.1 f.2.1),
+   (.outside, .plane f.2.2.1 (-f.2.2.2)), (.inside, .plane f.2.2.1 f.2.2.2)]
 
 /-- `InfWedge::build` (sin/cos of start and of start+interior given) -/
 def emitWedge (ss cs se ce : α) : List (Sense × Surface α) :=
@@ -767,9 +778,12 @@ def inCone (lo hi hh : α) (p : Vec3 α) : Bool :=
   Num.le (Num.abs p.z) hh
     && Num.le (p.x * p.x + p.y * p.y) (coneRadiusAt lo hi hh p.z * coneRadiusAt lo hi hh p.z)
 
+/-- (x/rx)² + (y/ry)² + (z/rz)² -/
+def ellipsoidForm (r p : Vec3 α) : α :=
+  (p.x / r.x) * (p.x / r.x) + (p.y / r.y) * (p.y / r.y) + (p.z / r.z) * (p.z / r.z)
+
 /-- ellipsoid: (x/rx)² + (y/ry)² + (z/rz)² ≤ 1 -/
-def inEllipsoid (r p : Vec3 α) : Bool :=
-  Num.le ((p.x / r.x) * (p.x / r.x) + (p.y / r.y) * (p.y / r.y) + (p.z / r.z) * (p.z / r.z)) (1 : α)
+def inEllipsoid (r p : Vec3 α) : Bool := Num.le (ellipsoidForm r p) (1 : α)
 
 /-- regular prism: |z| ≤ hh ∧ every face k < n: x cos θ_k + y sin θ_k ≤ apothem, with the face
     normals at θ_k = (2π/n)(k + offset), offset = ((3 n + 4 orientation) mod 4)/4 as in the code
